@@ -21,17 +21,17 @@ import (
 // caseC10 is one gxz run whose every file-system system call is used as a
 // crash point and as a fault point.
 type caseC10 struct {
-	Op     string     `json:"op"`     // compress | decompress
-	Fmt    string     `json:"fmt"`    // xz | lzma
-	Flags  []string   `json:"flags"`  // subset of -k -f -c
-	Name   string     `json:"name"`   // input file name
-	Input  string     `json:"input"`  // valid | bitflip | trunc
-	Target bool       `json:"target"` // a file already exists under the target name
+	Op     string   `json:"op"`     // compress | decompress
+	Fmt    string   `json:"fmt"`    // xz | lzma
+	Flags  []string `json:"flags"`  // subset of -k -f -c
+	Name   string   `json:"name"`   // input file name
+	Input  string   `json:"input"`  // valid | bitflip | trunc
+	Target bool     `json:"target"` // a file already exists under the target name
 	// a user file already exists under the name gxz uses for its temporary
 	// file (<target>.compress / <target>.decompress): it is the user's data
 	// and must survive every run
-	TempTaken bool `json:"temptaken,omitempty"`
-	Data   gen.Recipe `json:"data"`
+	TempTaken bool       `json:"temptaken,omitempty"`
+	Data      gen.Recipe `json:"data"`
 }
 
 func drawC10(t *rapid.T) caseC10 {
